@@ -104,6 +104,7 @@ void OnlineVariance::reset()
 {
   std::lock_guard<std::mutex> lock(mutex_);
 
+  index_ = 0;
   data_.clear();
   squaredData_.clear();
 
